@@ -965,8 +965,8 @@ theorem facAddDecimals_tok {w w' : World} {sender denom decimals : Nat}
     rfl
 
 theorem good_facCreatePair {w w' : World} {sender : Nat} {a0 a1 : Asset} {req : Requirements} {comm : Option Nat}
-    {np nl : Nat} (hfresh : w.tok nl = none)
-    (h : facCreatePair w sender a0 a1 req comm np nl = .ok w') : Good ok w w' := by
+    {lpDec : Option Nat} {np nl : Nat} (hfresh : w.tok nl = none)
+    (h : facCreatePair w sender a0 a1 req comm lpDec np nl = .ok w') : Good ok w w' := by
   unfold facCreatePair at h
   split at h
   · cases h
@@ -983,13 +983,18 @@ theorem good_facCreatePair {w w' : World} {sender : Nat} {a0 a1 : Asset} {req : 
   · cases h
   split at h
   · cases h
+  have h' : ∃ cb : Bool, (if cb = true then (.error .err : M World) else _) = .ok w' := ⟨_, h⟩
+  clear h
+  obtain ⟨cb, h⟩ := h'
+  split at h
+  · cases h
   injection h with h
   subst h
-  exact good_create hfresh (T := { bal := fun _ => 0, allow := fun _ _ => none, supply := 0, minter := some np, decimals := 6 })
+  exact good_create hfresh (T := { bal := fun _ => 0, allow := fun _ _ => none, supply := 0, minter := some np, decimals := lpDec.getD 6 })
     (fun _ => rfl) rfl
 
 theorem good_facExec {w w' : World} {s : Nat} {funds : List (Nat × Nat)} {m : FacMsg}
-    (hfresh : ∀ a0 a1 req c np nl, m = .createPair a0 a1 req c np nl → w.tok nl = none)
+    (hfresh : ∀ a0 a1 req c ld np nl, m = .createPair a0 a1 req c ld np nl → w.tok nl = none)
     (h : facExec w s funds m = .ok w') : Good ok w w' := by
   unfold facExec at h
   simp only [bind_ok_iff] at h
@@ -1005,8 +1010,8 @@ theorem good_facExec {w w' : World} {s : Nat} {funds : List (Nat × Nat)} {m : F
     injection h with h
     subst h
     exact good_of_tok rfl
-  | createPair a0 a1 req comm np nl =>
-    exact good_facCreatePair (by rw [t0]; exact hfresh _ _ _ _ _ _ rfl) h
+  | createPair a0 a1 req comm lpDec np nl =>
+    exact good_facCreatePair (by rw [t0]; exact hfresh _ _ _ _ _ _ _ rfl) h
   | addDecimals d k => exact good_of_tok (facAddDecimals_tok h)
   | migratePair p c =>
     have h : facMigratePair w0 s p c = .ok w' := h
@@ -1066,7 +1071,7 @@ theorem good_exec {name : Asset → String} {w w' : World} {op : Op} {out : Out}
   | factory s f m =>
     simp only [exec, bind_ok_iff, pure_ok_iff, Prod.mk.injEq] at h
     obtain ⟨w1, h1, rfl, _⟩ := h
-    exact good_facExec (fun a0 a1 req c np nl e => (hf s f a0 a1 req c np nl (by rw [e])).2.1) h1
+    exact good_facExec (fun a0 a1 req c ld np nl e => (hf s f a0 a1 req c ld np nl (by rw [e])).2.1) h1
 
 /-! ### C20 / C05W: the exported statements -/
 
